@@ -19,7 +19,7 @@ NA = {
 }
 CHECKS = {
 "C01": dict(level="fault_enumeration", tech="deterministic simulation: simulated OS (every os.* call) + fault injection (ENOENT/EACCES/EISDIR/EIO, short/torn/flipped/swapped content, TOCTOU, no HOME/cwd, loader failures) + seeded map order; totality oracle with logical step budgets",
-  text="Seeded simulation of the whole loader (loader, model and cli entry points) over a simulated file system and process environment: every I/O call site of the library is made to fail in each applicable way, inside loads of generated multi-file layouts (reference cycles of every kind included) and of a schema-driven type-confusion enumeration (path x node kind incl. !reset/!override tags x placement x option set x entry point, exhaustive in the thorough tier); each run is judged by the totality oracle (value xor error, no panic, no fatal, budgets on function entries / call depth / map ranges / I/O events, faulted required file named in the error). Sampling over a large space: evidence, not proof.",
+  text="Seeded simulation of the whole loader (loader, model and cli entry points) over a simulated file system and process environment: every I/O call site of the library is made to fail in each applicable way, inside loads of generated multi-file layouts (reference cycles of every kind included) of a schema-driven type-confusion enumeration (path x node kind incl. !reset/!override tags x placement x option set x entry point, exhaustive in the thorough tier) and of structurally mutated valid documents (node kinds, deletions, renames, aliases to ancestors, self-referring merge keys); referenced files that the fault-free load never consults are found by a structural in-play rule and made absent; each run is judged by the totality oracle (value xor error, no panic, no fatal, budgets on function entries / call depth / map ranges / I/O events, faulted required file named in the error). Sampling over a large space: evidence, not proof.",
   note="Trusted: simgo rewrites are semantics preserving (repo suite passes on the instrumented copy), zsimrt.FS models the os calls the library makes (ReadFile/Open/Stat/Lstat/Getwd/UserHomeDir/Abs/EvalSymlinks/Environ), step budgets are far above any legitimate load (setup measures the fault-free maximum).", ref="3/C01"),
 "C02": dict(level="exploration", tech="deterministic simulation: seeded control of all 132 map-range sites (sorted/reverse/rotation/permutation per site), load histories in one process; differential oracle across schedules",
   text="Each generated layout is loaded under several seeded iteration-order schedules of every map range in the library and after a drawn history of other loads; outcomes, projects (DeepEqual) and YAML/JSON bytes must agree. Dependence on earlier loads in the process is checked both ways: canary layouts loaded while the process is pristine and re-loaded later, and a sample of evaluations repeated in a fresh child process; one pre-parsed ConfigDetails is loaded twice. Order-dependent sites are isolated by delta-debugging the schedule. Sampling.",
